@@ -451,7 +451,7 @@ fn tier_for(prop: &str, tier: &str) -> Tier {
         .and_then(|s| s.parse::<f64>().ok())
         .unwrap_or(1.0);
     let (c, f, d) = match (prop, tier) {
-        ("C04", "quick") => (40_000, 60_000, 4_000),
+        ("C04", "quick") => (30_000, 45_000, 3_000),
         ("C04", _) => (800_000, 1_200_000, 40_000),
         ("C11", "quick") => (60_000, 60_000, 4_000),
         ("C11", _) => (1_000_000, 1_000_000, 40_000),
@@ -822,9 +822,9 @@ pub fn check(args: &[String]) -> i32 {
                 (
                     "step_budget_per_operation",
                     J::s(format!(
-                        "{} + {} * L^2, L = argv bytes + items + 8",
+                        "{} + {} * L^3, L = argv bytes + items + 8",
                         crate::c04::BUDGET_BASE,
-                        crate::c04::BUDGET_PER_L2
+                        crate::c04::BUDGET_PER_L3
                     )),
                 ),
             ]),
